@@ -97,6 +97,8 @@ func init() {
 		}
 		c.floor("no-underflow", 20)
 		c.needFixture("no-underflow")
+		c16CancelAndGates(c)
+		c16MarkerWithHistory(c)
 
 		// floor-first
 		if pu := p.Func("pruner", "Pruner", "pruneUpto"); pu == nil {
@@ -414,7 +416,11 @@ func c16ResumeSafe(c *Ctx, rule string, ci *capInfo, r *resolver) {
 	reads, _ := putBuckets(effs, "Get", "Has", "Iterate")
 	dels, _ := putBuckets(effs, "Delete", "DeleteRange")
 	probe, _ := putBuckets(p.effectsFrom(r, ci, or, cut), "Get", "Has", "Iterate")
+	probeOnly := map[string]bool{}
 	for b, e := range probe {
+		if _, also := reads[b]; !also {
+			probeOnly[b] = true
+		}
 		reads[b] = e
 	}
 	var ks []string
@@ -427,7 +433,126 @@ func c16ResumeSafe(c *Ctx, rule string, ci *capInfo, r *resolver) {
 	}
 	for _, b := range ks {
 		_, clash := reads[b]
+		if clash && probeOnly[b] {
+			// The bucket the resume probe scans is the sweep's progress marker. Deleting it for the blocks already processed,
+			// in the same batch as their history, moves the resume point past them atomically (C16/marker-with-history
+			// checks exactly that pairing); the phase itself never reads it.
+			c.ok(rule, "pruneHashKeyedUpto deletes "+b, p.Pos(dels[b].Pos), "progress marker of the resume probe, deleted together with the processed blocks' history (see marker-with-history); not read by the phase itself")
+			continue
+		}
 		c.check(!clash, rule, "pruneHashKeyedUpto deletes "+b, p.Pos(dels[b].Pos), "bucket is not read by the multi-commit phase nor by the resume probe",
 			fmt.Sprintf("the multi-commit phase of PruneUpto deletes bucket %s (%s) which the phase itself or OldestRetainedBlock reads (%s): after a crash between commits the resumed prune cannot find the data it needs", b, qname(dels[b].Fn), qname(reads[b].Fn)))
+	}
+}
+
+// c16CancelAndGates: (cancel-before-effects) a cancellation check inside a pruning loop that reports how far it got sits
+// before the iteration's deletions — checked after them, `break` skips the loop's post statement and the block just pruned
+// is reported (and re-derived after a restart) as still retained; (state-gate-only) resolvers for state queries apply the
+// state-retention test only: state is kept one block below the oldest retained block (the carve-out), which the
+// block-retention gate rejects.
+func c16CancelAndGates(c *Ctx) {
+	p := c.P
+	n := 0
+	for _, fn := range p.sortedFuncs() {
+		if pkgRelOf(fn) != "pruner" || fn.Origin() != nil || strings.HasSuffix(p.Pos(fnPos(fn)), "_test.go") {
+			continue
+		}
+		ss := sitesOf(fn)
+		for _, s := range ss {
+			if !(s.Method != nil && s.Method.Name() == "Err" && strings.HasSuffix(typeShort(s.Recv.Type()), "context.Context")) {
+				continue
+			}
+			if !inSameLoop(s.Block(), s.Block()) {
+				continue
+			}
+			n++
+			bad := ""
+			for _, t := range ss {
+				nm := ""
+				if t.Callee != nil {
+					nm = t.Callee.Name()
+				} else if t.Method != nil {
+					nm = t.Method.Name()
+				}
+				effect := strings.HasPrefix(nm, "Delete") || strings.HasPrefix(nm, "delete") || strings.HasPrefix(nm, "prune") || nm == "Write" || nm == "DeleteRange"
+				if !effect || !inSameLoop(t.Block(), s.Block()) {
+					continue
+				}
+				if !dominatesInstr(s.Instr, t.Instr) {
+					bad = nm + " at " + p.Pos(t.Pos())
+				}
+			}
+			c.check(bad == "", "cancel-before-effects", qname(fn)+": ctx.Err() in loop", p.Pos(s.Pos()), "the cancellation check precedes the iteration's deletions", "the cancellation check comes after "+bad+" of the same iteration: on cancellation the block just pruned is not counted, the sweep reports it as retained and the floor re-derived from disk advertises a damaged block")
+		}
+	}
+	if n < 1 {
+		c.und("cancel-before-effects", "pruner loops", "", "no cancellation check inside a pruning loop found")
+	}
+	k := 0
+	for _, fn := range p.sortedFuncs() {
+		if pkgRelOf(fn) != "pruner" || fn.Origin() != nil || fn.Parent() != nil || !strings.Contains(fn.Name(), "StateRetained") {
+			continue
+		}
+		k++
+		bad := ""
+		reach := p.Reachable([]*ssa.Function{fn}, func(caller, callee *ssa.Function) bool { return pkgRelOf(callee) != "pruner" })
+		for _, g := range reach.Funcs() {
+			if g != fn && (g.Name() == "RequireRetained" || g.Name() == "OldestRetainedBlock") {
+				bad = g.Name()
+			}
+		}
+		c.check(bad == "", "state-gate-only", qname(fn), p.Pos(fnPos(fn)), "applies the state-retention test only", "a state-scoped resolver applies the block-retention gate ("+bad+"): state one block below the oldest retained block (kept on purpose, with its hash→number entry) is reported as pruned when asked for by hash")
+	}
+	if k < 3 {
+		c.und("state-gate-only", "pruner *StateRetained* resolvers", "", fmt.Sprintf("only %d found", k))
+	}
+}
+
+// c16MarkerWithHistory: the retention floor is re-derived at start-up from the block commitments. Every commit of the
+// multi-batch sweep that deletes per-block history therefore also range-deletes the commitments of the blocks processed so
+// far — otherwise a crash between two batches leaves the floor advertising blocks whose history is gone (F16).
+func c16MarkerWithHistory(c *Ctx) {
+	p := c.P
+	f := p.Func("pruner", "", "pruneHashKeyedUpto")
+	if f == nil {
+		c.und("marker-with-history", "pruner.pruneHashKeyedUpto", "", "anchor not found")
+		return
+	}
+	c.saw(qname(f))
+	var marks []Site
+	for _, s := range sitesOf(f) {
+		if (s.Callee != nil && s.Callee.Name() == "DeleteRange" || s.Method != nil && s.Method.Name() == "DeleteRange") {
+			all := ""
+			for _, a := range s.Args() {
+				all += termF(a) + " "
+			}
+			if s.Recv != nil {
+				all += termF(s.Recv)
+			}
+			if strings.Contains(all, "blockCommitmentsRange") {
+				marks = append(marks, s)
+			}
+		}
+	}
+	n := 0
+	for _, s := range sitesOf(f) {
+		if !(s.Method != nil && s.Method.Name() == "Write" && strings.HasSuffix(typeShort(s.Recv.Type()), "db.Batch")) {
+			continue
+		}
+		n++
+		ok := false
+		for _, m := range marks {
+			if dominatesInstr(m.Instr, s.Instr) && m.Block() == s.Block() || dominatesInstr(m.Instr, s.Instr) && !inSameLoop(m.Block(), m.Block()) && !inSameLoop(s.Block(), s.Block()) {
+				ok = true
+			}
+			// inside the loop: the marker delete of the same iteration (same rotation branch) dominates the write
+			if inSameLoop(m.Block(), s.Block()) && dominatesInstr(m.Instr, s.Instr) {
+				ok = true
+			}
+		}
+		c.check(ok, "marker-with-history", fmt.Sprintf("pruneHashKeyedUpto: batch commit #%d", n), p.Pos(s.Pos()), "the commit also range-deletes the block commitments of the blocks processed so far", "a batch of the sweep is committed without deleting the block commitments of the blocks whose history it removes: after a crash the floor re-derived from the commitments admits state queries for blocks whose history is already gone")
+	}
+	if n < 2 {
+		c.und("marker-with-history", "pruneHashKeyedUpto", p.Pos(fnPos(f)), fmt.Sprintf("only %d batch commits found", n))
 	}
 }
